@@ -376,7 +376,7 @@ fn run_global(rng: &mut Rng, out: &mut Out, l: &deno_lint::linter::Linter) {
       let (unres, partner, mate) = match &code[..1] {
         "-" => (unresolved, None, None),
         "p" => (unresolved, k, k),
-        // a lower-case plain tag names an intrinsic element: no reference, never reported (repair bc254c3; before it
+        // a lower-case plain tag names an intrinsic element: no reference, never reported (repair e18f1c8; before it
         // both tags were reported, each with a fix of its own)
         _ => (if lower { false } else { unresolved }, None, k),
       };
@@ -532,7 +532,7 @@ fn run_bool(rng: &mut Rng, out: &mut Out, l: &deno_lint::linter::Linter) {
       };
       let (a, b) = (ch[0].0, ch[0].1);
       // the deleted range lies inside attribute `i`, behind its name
-      // (a single blank instead of nothing when the next attribute follows the value at once: repair f6111ae)
+      // (a single blank instead of nothing when the next attribute follows the value at once: repair 629a81d)
       let glued = src[b..].starts_with(|c: char| !c.is_whitespace() && c != '/' && c != '>');
       if ch.len() != 1 || ch[0].2 != if glued { " " } else { "" } || a <= starts[i] || starts.get(i + 1).map_or(false, |s| b > *s) {
         out.found("C13", &format!("unexpected-change:{}", rule), &src, json!({"meta": {"src": src, "ext": ext}, "changes": ch}));
